@@ -92,14 +92,14 @@ EXTRA = {
  "C04": " Also: every class/ID of the message-ID table payload-less in sequence by every addressing, messages obtained by lenient parses of damaged frames, payloads around 64 KiB, payload= as bytes / bytearray / memoryview, text attributes given as non-UTF-8 bytes, twins of the built message, case-insensitive str-subclass names, message types (re)registered at run time in child interpreters.",
  "C05": " The judgements rotate over both bitfield settings, all msgmodes and a preceding lenient parse of the same bytes.",
  "C06": " Stream kinds: minimal recording stream, io.BytesIO, non-seekable io.BufferedReader, scripted socket; growing streams; long runs; frames of every definition with over/under-long payloads; every synthesised boundary frame toured deterministically; relations between consecutive frames (repeats, same-length twins, ascending / descending lengths); a resume run (errors raised, caught, same iterator).",
- "C07": " Stream kinds as for C06 incl. sockets and a polling caller after end-of-stream; growing streams paused anywhere; long runs; rejected frames nested in rejected frames; a second reader over an unrelated stream used in between by the same thread; warnings promoted to errors in every second run; one byte per recv(); more than a MiB through one socket reader; resume runs judged once they end.",
+ "C07": " Stream kinds as for C06 incl. sockets and a polling caller after end-of-stream; growing streams paused anywhere; long runs; rejected frames nested in rejected frames; a second reader over an unrelated stream used in between by the same thread; warnings promoted to errors in every second run; one byte per recv(); more than a MiB through one socket reader; resume runs judged once they end; a process holding 1100 open descriptors; exactly filled receive buffers.",
  "C08": " Reader runs include socket and non-seekable streams, streams ending inside frames, long runs and bursty delivery.",
  "C09": " Runs rotate over the protocol masks, handler presence and all stream kinds (incl. sockets and non-seekable streams); frames within frames; runs of more than a thousand filtered-out frames; more than a MiB over a socket in 4096-byte buffers.",
- "C10": " Thorough also discharges Conservation as an inductive invariant with Apalache (spec/MC_SocketInd.tla); SocketWrapper.write is specified and checked as a note; reader runs rotate protfilter / parsing / validate / labelmsm; TLS-like sockets (own record-bounded read()), NTRIP / HTTP status lines ahead of the data, datagram sockets, timed sockets (pieces in time, together longer than the timeout), one byte per recv() inside long lines.",
+ "C10": " Thorough also discharges Conservation as an inductive invariant with Apalache (spec/MC_SocketInd.tla); SocketWrapper.write is specified and checked as a note; reader runs rotate protfilter / parsing / validate / labelmsm; TLS-like sockets (own record-bounded read()), NTRIP / HTTP status lines ahead of the data, datagram sockets, timed sockets (pieces in time, together longer than the timeout), one byte per recv() inside long lines; polls written between reads, pre-wrapped sockets, hand-over of the datastream to a second reader.",
  "C11": " Also long runs of filtered-out frames, socket / non-seekable streams; a filtered run that dies is a violation; more than a MiB of filtered-out frames in one run; reader options given positionally.",
- "C12": " Also handler OBJECTS with a false truth value, bursty and growing streams, long runs of rejections, socket streams, logger-like callable handler objects, positional options; beyond the property the logging channel (one ERROR record per rejected frame under ERR_LOG without handler, none otherwise) is compared with the specification (notes only).",
- "C13": " Also schedules in which the interleaving is the first use of the library in the interpreter, operation families sharing lazily initialised state, SETPOLL operations, definition-hidden attribute names, default logging configuration; assignments of the current / an equal value; probes on pickle / deepcopy / copy twins; operations with positional options.",
- "C14": " Also every key with the extreme values of its type in the parse direction, repeated keys in helper lists, near-miss undocumented keys, keys with related names (X and X_HP ...) in one message in both orders.",
+ "C12": " Also handler OBJECTS with a false truth value, bursty and growing streams, long runs of rejections, socket streams, logger-like callable handler objects, bound methods of unreferenced objects, positional options, logging disabled / raised / at DEBUG; beyond the property the logging channel (one ERROR record per rejected frame under ERR_LOG without handler, none otherwise) is compared with the specification (notes only).",
+ "C13": " Also schedules in which the interleaving is the first use of the library in the interpreter, operation families sharing lazily initialised state, SETPOLL operations, definition-hidden attribute names, default logging configuration; assignments of the current / an equal value; probes on pickle / deepcopy / copy twins; operations with positional options; hashing / comparing / copying / listing a message must leave it unchanged; mismatched class / message names.",
+ "C14": " Also every key with the extreme values of its type in the parse direction, repeated keys in helper lists, near-miss undocumented keys, keys with related names (X and X_HP ...) in one message in both orders, payload lengths at multiples of 256, SETPOLL resolution of CFG-VALSET / CFG-VALDEL.",
  "C15": " Also: text too long for any frame, the raw-bitfield view with harness-decoded keywords, and the accepted value must be carried by the serialised frame; an owner that changed the array attributes of an earlier build in place; keywords that name no attribute of the message in the view; nested groups with two repeats; a sample under -O / -OO.",
  "C16": " Also sibling modes back to back in one interpreter, hostile histories, and the nominal instance addressed by bytes, integers, names and case-insensitive str-subclass names; the nominal instances again under python -bb and -O -bb.",
  "C17": " The comparison is repeated with parsebitfield off and with VALNONE, and through a SETPOLL stream reader behind stray frames of the same class/ID, and through a stream reader opened with the true mode; byte strings with the same header but another real size handled first.",
